@@ -175,6 +175,22 @@ void harness(void)
         CHECK(node.NodeId == nid && node.Baudrate == baud_tbl[bix], "stored node id and bit rate active after reset communication");
         CHECK(env_tx_n == 1 && env_tx[0].Identifier == 0x700u + nid && env_tx[0].DLC == 1 && env_tx[0].Data[0] == 0, "boot-up with the stored node id");
         CHECK(node.Lss.Mode == CO_LSS_WAIT, "LSS waiting after reset");
+        /* a second session: a configuration that is requested but NOT stored is gone after the next reset */
+        {
+            uint8_t nid2 = (uint8_t)ND_RANGE(1, 127);
+            uint32_t st0;
+            ASSUME(nid2 != nid);
+            d[0] = 4;  d[1] = 1; d[2] = 0;    env_deliver(&node, 0x7E5, 8, d);
+            d[0] = 17; d[1] = nid2;           env_deliver(&node, 0x7E5, 8, d);
+            d[0] = 19; d[1] = 0; d[2] = (uint8_t)((bix + 1) % 5); env_deliver(&node, 0x7E5, 8, d);
+            env_tx_n = 0;
+            CONmtReset(&node.Nmt, CO_RESET_COM);
+            CHECK(node.NodeId == nid && env_tx_n == 1 && env_tx[0].Identifier == 0x700u + nid, "a configuration that was not stored does not become active");
+            st0 = env_lssstore_n;
+            d[0] = 4;  d[1] = 1; d[2] = 0;    env_deliver(&node, 0x7E5, 8, d);
+            d[0] = 23; d[1] = 0;              env_deliver(&node, 0x7E5, 8, d);
+            CHECK(env_lssstore_n == st0 + 1 && env_lssstore_node == 0 && env_lssstore_baud == 0, "a configuration requested before the reset does not leak into a later store");
+        }
     }
 #endif
     CHECK(env_fatal == 0, "no fatal error");
